@@ -82,7 +82,7 @@ const histProbeSrc = `
 func runHistories(r *engine.Run) {
 	var ks []int
 	for i, k := range constructs {
-		if k.interpreterRaised() && !k.noTrace && !k.nested && k.group != "arraylength" && k.group != "arraylength-store" {
+		if k.interpreterRaised() && !k.noTrace && !k.nested && !strings.HasPrefix(k.group, "invalid-lhs") && k.group != "arraylength" && k.group != "arraylength-store" {
 			ks = append(ks, i)
 		}
 	}
